@@ -15,7 +15,7 @@
     contradictory combinations pruned by linear arithmetic (with the lengths normalised). *)
 From Coq Require Import NArith ZArith Bool List Lia ZifyBool ZifyN.
 From Hoot Require Import Base Chunk Body GenLib Gen Gen2.
-From Hoot.proofs Require Import BytesLemmas Gen_equiv_body Gen2_equiv_chunk Gen2_equiv_body.
+From Hoot.proofs Require Import BytesLemmas Gen2_equiv_chunk Gen2_equiv_rel.
 Open Scope N_scope.
 
 (* ------------------------------------------------------------------ the model's parse_input consumes at most its input *)
@@ -139,21 +139,10 @@ Proof.
 Qed.
 
 (** [BodyReader::read], every reader state. *)
-Theorem gen_br_read_equiv r src dst stop :
-  limit_fits r src dst ->
-  rd_rel dst (gen_br_read r src dst stop) (reader_read r src (len dst) stop).
-Proof.
-  intros Hfit. destruct r as [|lft|d|].
-  - apply gen_br_read_nonchunked_equiv; [discriminate|exact Hfit].
-  - apply gen_br_read_nonchunked_equiv; [discriminate|exact Hfit].
-  - unfold gen_br_read. cbv zeta. apply rd_rel_forward, gen_br_read_chunked_equiv.
-  - apply gen_br_read_nonchunked_equiv; [discriminate|exact Hfit].
-Qed.
-
-Corollary gen_br_read_equiv_u64 r src dst stop :
-  reader_u64 r ->
-  rd_rel dst (gen_br_read r src dst stop) (reader_read r src (len dst) stop).
-Proof. intros H. apply gen_br_read_equiv, reader_u64_fits, H. Qed.
+(** [BodyReader::read] on a chunked reader (the dispatcher reduces to [read_chunked]). *)
+Theorem gen_br_read_on_chunked d src dst stop :
+  rd_rel dst (gen_br_read (RChunked d) src dst stop) (reader_read (RChunked d) src (len dst) stop).
+Proof. unfold gen_br_read. cbv zeta. apply rd_rel_forward, gen_br_read_chunked_equiv. Qed.
 
 (* ------------------------------------------------------------------ E. *)
 Print Assumptions fc_aux_bound.
@@ -165,5 +154,4 @@ Print Assumptions buf_view.
 Print Assumptions buf_back.
 Print Assumptions gen_br_read_chunked_loop1_equiv.
 Print Assumptions gen_br_read_chunked_equiv.
-Print Assumptions gen_br_read_equiv.
-Print Assumptions gen_br_read_equiv_u64.
+Print Assumptions gen_br_read_on_chunked.
